@@ -29,7 +29,9 @@ ASSUMPTIONS = [
 ]
 
 FILTERS = [False, True, 'params', 'stats', ['stats', 'cnt'], {'deny': 'params'},
-           {'deny': ['stats', 'cnt']}, 'aux', ['intermediates', 'cnt'], 'perturbations']
+           {'deny': ['stats', 'cnt']}, 'aux', ['intermediates', 'cnt'], 'perturbations',
+           # names that merely *contain* a collection name select nothing / deny nothing
+           'xcntx', {'deny': 'xstatsx'}]
 
 
 def bounds(tier):
